@@ -131,7 +131,7 @@ func (w *c23World) Final(s *dsim.Sim, stuck bool) *dsim.Violation {
 		}
 	}
 	if w.issued != len(w.toIssue) {
-		return &dsim.Violation{Property: "C23", Rule: "harness", Witness: "ops-not-issued", Detail: "workload ops left unissued at quiescence"}
+		s.Inconclusive = "harness: workload ops left unissued at quiescence"
 	}
 	return nil
 }
